@@ -338,7 +338,7 @@ theorem frag_bound {g : Graph} {fails : Kind → Bool} {st : St} (h : Inv g fail
       ∀ e ∈ frag g fuel n, e.node ∈ st.bound ∧ isUnit e.kind = true ∧ e = Ev.call e.node (g.kind e.node)
   | 0, _, _, _, e, he => by simp [frag] at he
   | fuel + 1, n, hn, hs, e, he => by
-    simp only [frag, List.mem_flatMap, List.mem_filter, List.mem_append, List.mem_singleton] at he
+    simp only [frag, unitBefores, List.mem_flatMap, List.mem_filter, List.mem_append, List.mem_singleton] at he
     obtain ⟨p, ⟨hpb, hpu⟩, hpe⟩ := he
     have hpbound := h.befs n hn hs p hpb
     rcases hpe with hpe | rfl
@@ -354,7 +354,7 @@ theorem out_bound {g : Graph} {fails : Kind → Bool} {st : St} (h : Inv g fails
   obtain ⟨hnb, hns, _⟩ := h.ran n hn
   rcases he with he | rfl
   · exact (frag_bound h _ n hnb hns e he).1
-  · split <;> exact hnb
+  · unfold evAt; split <;> exact hnb
 
 theorem foldl_min_mem (l : List Nat) (a : Nat) : l.foldl Nat.min a = a ∨ l.foldl Nat.min a ∈ l := by
   induction l generalizing a with
@@ -532,5 +532,177 @@ theorem exec_ret {g : Graph} {fails : Kind → Bool} :
               rw [hs] at hb2
               exact absurd hb2.2.1.1 (by simpa using hnb)
         · simp at h
+
+/-! ### local well-formedness, as propositions -/
+
+theorem length_le_one_eq {α : Type} {l : List α} {a b : α} (h : l.length ≤ 1) (ha : a ∈ l) (hb : b ∈ l) :
+    a = b := by
+  match l, h with
+  | [], _ => cases ha
+  | [x], _ =>
+    simp only [List.mem_singleton] at ha hb
+    rw [ha, hb]
+  | _ :: _ :: _, h => simp at h
+
+theorem lt_size_of_kind {g : Graph} {n : Nat} (h : g.kind n ≠ .other) : n < g.size := by
+  by_cases hlt : n < g.size
+  · exact hlt
+  · exact absurd (kind_of_ge (Nat.le_of_not_lt hlt)) h
+
+theorem isEh_lt {g : Graph} {n : Nat} (h : isEh (g.kind n) = true) : n < g.size := by
+  apply lt_size_of_kind
+  intro hk; rw [hk] at h; cases h
+
+theorem dedup_subset (l : List Nat) : ∀ x ∈ dedup l, x ∈ l := by
+  have : ∀ (l acc : List Nat), ∀ x ∈ l.foldl (fun acc x => if acc.contains x then acc else acc ++ [x]) acc,
+      x ∈ acc ∨ x ∈ l := by
+    intro l
+    induction l with
+    | nil => intro acc x hx; exact Or.inl hx
+    | cons a l ih =>
+      intro acc x hx
+      simp only [List.foldl_cons] at hx
+      rcases ih _ x hx with h | h
+      · split at h
+        · exact Or.inl h
+        · rcases List.mem_append.mp h with h | h
+          · exact Or.inl h
+          · simp only [List.mem_singleton] at h
+            exact Or.inr (by simp [h])
+      · exact Or.inr (List.mem_cons_of_mem _ h)
+  intro x hx
+  rcases this l [] x hx with h | h
+  · cases h
+  · exact h
+
+theorem ancFrom_sound {g : Graph} {t : Nat} : ∀ (fuel : Nat) (frontier seen : List Nat),
+    (∀ x ∈ frontier, DataPath g x t) → (∀ x ∈ seen, DataPath g x t) →
+    ∀ x ∈ ancFrom g fuel frontier seen, DataPath g x t
+  | 0, _, _, _, hs => by simpa [ancFrom] using hs
+  | fuel + 1, frontier, seen, hf, hs => by
+    intro x hx
+    simp only [ancFrom] at hx
+    have hnext : ∀ y ∈ dedup ((frontier.flatMap g.dataPreds).filter (fun n => !seen.contains n)), DataPath g y t := by
+      intro y hy
+      have := dedup_subset _ y hy
+      obtain ⟨hy1, _⟩ := List.mem_filter.mp this
+      obtain ⟨f, hfm, hyf⟩ := List.mem_flatMap.mp hy1
+      exact (DataPath.single hyf).trans (hf f hfm)
+    split at hx
+    · exact hs x hx
+    · refine ancFrom_sound fuel _ _ hnext ?_ x hx
+      intro y hy
+      rcases List.mem_append.mp hy with hy | hy
+      · exact hs y hy
+      · exact hnext y hy
+
+theorem dataAnc_sound {g : Graph} {h t : Nat} (hm : h ∈ dataAnc g t) : DataPath g h t := by
+  apply ancFrom_sound g.size [t] [t] _ _ h hm
+  · intro x hx; simp only [List.mem_singleton] at hx; subst hx; exact .refl
+  · intro x hx; simp only [List.mem_singleton] at hx; subst hx; exact .refl
+
+theorem ordered_dst_lt {g : Graph} (ho : g.ordered = true) {e : Edge} (he : e ∈ g.edges) :
+    e.src < e.dst ∧ e.dst < g.size := by
+  have := List.all_eq_true.mp ho e he
+  simpa using this
+
+structure ArmsWF (g : Graph) : Prop where
+  oneParent : OneParent g
+  single : ∀ n, (unitBefores g n).length ≤ 1
+  ehMatcher : ∀ h, isEh (g.kind h) = true → ∃ m, ehMatchers g h = [m]
+  oneHandler : ∀ m h h', isEh (g.kind h) = true → isEh (g.kind h') = true →
+    m ∈ ehMatchers g h → m ∈ ehMatchers g h' → h = h'
+  inlined : ∀ n, isUnit (g.kind n) = false → unitBefores g n ≠ [] →
+    ∃ h, g.dataPreds n = [h] ∧ isEh (g.kind h) = true ∧
+      ∀ n', isUnit (g.kind n') = false → unitBefores g n' ≠ [] → g.dataPreds n' = [h] → n' = n
+  sinks : ∀ m h, g.kind m = .errMatch → isEh (g.kind h) = true → m ∈ ehMatchers g h →
+    ∀ t ∈ g.sinksOf m, DataPath g h t
+
+theorem mem_ehMatchers_kind {g : Graph} {m h : Nat} (hm : m ∈ ehMatchers g h) : g.kind m = .errMatch := by
+  simp only [ehMatchers, List.mem_append, List.mem_filter, List.mem_flatMap, beq_iff_eq] at hm
+  rcases hm with ⟨_, hk⟩ | ⟨_, _, _, hk⟩
+  · exact hk
+  · exact hk
+
+theorem unitBefores_lt {g : Graph} (ho : g.ordered = true) {n p : Nat} (hp : p ∈ unitBefores g n) :
+    n < g.size := by
+  have hb := (List.mem_filter.mp hp).1
+  obtain ⟨_, e, he, _, hd, _⟩ := mem_befores.mp hb
+  have := (ordered_dst_lt ho he).2
+  rw [hd] at this; exact this
+
+theorem ArmsWF.of_check {g : Graph} (h : armsWF g = true) : ArmsWF g := by
+  simp only [armsWF, Bool.and_eq_true] at h
+  obtain ⟨⟨⟨⟨⟨⟨ho, h1⟩, h2⟩, h3⟩, h4⟩, h5⟩, h6⟩ := h
+  refine ⟨OneParent.of_check h1, ?_, ?_, ?_, ?_, ?_⟩
+  · intro n
+    by_cases hlt : n < g.size
+    · have := List.all_eq_true.mp h2 n (List.mem_range.mpr hlt)
+      simpa using this
+    · match hub : unitBefores g n with
+      | [] => simp
+      | p :: _ =>
+        have : p ∈ unitBefores g n := by rw [hub]; exact List.mem_cons_self
+        exact absurd (unitBefores_lt ho this) hlt
+  · intro x hx
+    have := List.all_eq_true.mp h3 x (List.mem_range.mpr (isEh_lt hx))
+    rw [hx] at this
+    simp only [Bool.not_true, Bool.false_or, beq_iff_eq] at this
+    match hl : ehMatchers g x, this with
+    | [m], _ => exact ⟨m, rfl⟩
+  · intro m x x' hx hx' hm hm'
+    have hk := mem_ehMatchers_kind hm
+    have hmlt : m < g.size := lt_size_of_kind (by rw [hk]; intro hc; cases hc)
+    have := List.all_eq_true.mp h4 m (List.mem_range.mpr hmlt)
+    rw [hk] at this
+    simp only [bne_self_eq_false, Bool.false_or, decide_eq_true_eq] at this
+    refine length_le_one_eq this ?_ ?_
+    · exact List.mem_filter.mpr ⟨List.mem_range.mpr (isEh_lt hx), by simp [hx, hm]⟩
+    · exact List.mem_filter.mpr ⟨List.mem_range.mpr (isEh_lt hx'), by simp [hx', hm']⟩
+  · intro n hnu hne
+    have hnlt : n < g.size := by
+      match hub : unitBefores g n with
+      | [] => exact absurd hub hne
+      | p :: _ =>
+        have : p ∈ unitBefores g n := by rw [hub]; exact List.mem_cons_self
+        exact unitBefores_lt ho this
+    have := List.all_eq_true.mp h5 n (List.mem_range.mpr hnlt)
+    rw [hnu] at this
+    have hemp : (unitBefores g n).isEmpty = false := by
+      cases hub : unitBefores g n with
+      | nil => exact absurd hub hne
+      | cons _ _ => rfl
+    rw [hemp] at this
+    simp only [Bool.false_or] at this
+    match hd : g.dataPreds n, this with
+    | [x], this =>
+      simp only [Bool.and_eq_true, decide_eq_true_eq] at this
+      refine ⟨x, rfl, this.1, ?_⟩
+      intro n' hnu' hne' hd'
+      have hn'lt : n' < g.size := by
+        match hub : unitBefores g n' with
+        | [] => exact absurd hub hne'
+        | p :: _ =>
+          have : p ∈ unitBefores g n' := by rw [hub]; exact List.mem_cons_self
+          exact unitBefores_lt ho this
+      have hmem : ∀ k, k < g.size → isUnit (g.kind k) = false → unitBefores g k ≠ [] → g.dataPreds k = [x] →
+          k ∈ inlinedBelow g x := by
+        intro k hk hku hkne hkd
+        refine List.mem_filter.mpr ⟨List.mem_range.mpr hk, ?_⟩
+        have : (unitBefores g k).isEmpty = false := by
+          cases hub : unitBefores g k with
+          | nil => exact absurd hub hkne
+          | cons _ _ => rfl
+        simp [hku, this, hkd]
+      exact length_le_one_eq this.2 (hmem n' hn'lt hnu' hne' hd') (hmem n hnlt hnu hne hd)
+  · intro m x hk hx hm t ht
+    have hmlt : m < g.size := lt_size_of_kind (by rw [hk]; intro hc; cases hc)
+    have := List.all_eq_true.mp h6 m (List.mem_range.mpr hmlt)
+    rw [hk] at this
+    simp only [bne_self_eq_false, Bool.false_or] at this
+    have hx2 := List.all_eq_true.mp this x
+      (List.mem_filter.mpr ⟨List.mem_range.mpr (isEh_lt hx), by simp [hx, hm]⟩)
+    have := List.all_eq_true.mp hx2 t ht
+    exact dataAnc_sound (by simpa using this)
 
 end Pxv.Err
